@@ -12,6 +12,7 @@ Kinds:
 from __future__ import annotations
 
 import copy
+import itertools
 import os
 import re
 
@@ -20,6 +21,9 @@ from vf.gen import worlds as W
 from vf.models import ring
 
 PRODUCTS = ["alpha", "beta", "gamma", "delta", "epsilon", "zeta", "eta", "theta"]
+
+
+_WORLD_VARIANTS = itertools.count()
 
 
 def tie_world(rng):
@@ -57,7 +61,8 @@ def tie_world(rng):
     # two genes on one stretch, one on each strand (equal start and length: the record's order does not separate them),
     # carrying different profiles
     plain = [name for name, gene in world["genes"].items() if len(gene["loc"]["parts"]) == 1]
-    if plain and rng.random() < 0.5:
+    variant = next(_WORLD_VARIANTS)      # the extras below come round in turn, so that every run holds each of them
+    if plain and variant % 2 == 1:
         base = rng.choice(sorted(plain))
         twin = base + "t"
         spot = dict(world["genes"][base]["loc"])
@@ -66,7 +71,7 @@ def tie_world(rng):
         world["hits"].setdefault(base, {rng.choice(W.PROFILES): 30})
     # a gene whose identifier holds a run of characters that are not allowed in names (they become underscores,
     # one for each): its hits are filed under the name it has after that
-    if world["genes"] and rng.random() < 0.3:
+    if world["genes"] and variant % 3 == 0:
         old = rng.choice(sorted(world["genes"]))
         raw = old + rng.choice(["(+)x", " [:]y", "=>?z", "(;)"])
         clean = "".join("_" if ch in ILLEGAL_IN_NAMES else ch for ch in raw)
@@ -74,7 +79,7 @@ def tie_world(rng):
         if old in world["hits"]:
             world["hits"] = {(clean if name == old else name): hs for name, hs in world["hits"].items()}
     case = {"kind": "world", "world": world, "perm_seed": rng.randrange(1 << 30)}
-    if rng.random() < 0.4:
+    if variant % 2 == 0:
         # a subregion that is in the record before rule detection runs (as CASSIS or a sideloaded area is): the hits of
         # its genes are reported even where no protocluster forms
         case["earlier_subregion"] = [0, world["L"]]
